@@ -854,8 +854,22 @@ class TorConfig:
             # v will be txtorcon.DEFAULT_VALUE already from
             # parse_keywords if it was unspecified
             real_name = self._find_real_name(k)
-            if real_name in self.parsers:
-                v = self.parsers[real_name].parse(v)
+            if real_name in self.list_parsers:
+                # same shape as _do_setup produces: a tracked list,
+                # whether Tor reports zero, one or many values
+                if v == DEFAULT_VALUE:
+                    v = self._defaults.get(real_name, [])
+                elif real_name in self.parsers:
+                    v = self.parsers[real_name].parse(v)
+                if not isinstance(v, list):
+                    v = [v]
+                v = _ListWrapper(
+                    v, functools.partial(self.mark_unsaved, real_name))
+            else:
+                if v == DEFAULT_VALUE:
+                    v = self._defaults.get(real_name, DEFAULT_VALUE)
+                if real_name in self.parsers and v != DEFAULT_VALUE:
+                    v = self.parsers[real_name].parse(v)
             self.config[real_name] = v
 
     def bootstrap(self, arg=None):
